@@ -142,6 +142,13 @@ def units(tier, seed):
         us.append({"nobj": 1, "fields": "given", "extra": 1, "only_best": only_best, "text": "short", "L": 3, "extreme": True, "represent": True})
     for nobj in (1, 2):
         for only_best in (True, False):
+            for fields in ("default", "given"):
+                # an extra field with the name of an existing column replaces that column (one header cell, one row cell)
+                us.append({"nobj": nobj, "fields": fields, "extra": "override", "only_best": only_best, "text": "short", "L": 3})
+                # individuals that were evaluated for another problem before they reach this tracker
+                us.append({"nobj": nobj, "fields": fields, "extra": 1, "only_best": only_best, "text": "short", "L": 3, "other_problem_first": True})
+    for nobj in (1, 2):
+        for only_best in (True, False):
             us.append({"nobj": nobj, "fields": "given", "extra": "simplegp2", "only_best": only_best, "text": "short", "L": 4 if nobj == 1 else 3,
                        "ephemeral": True})
             us.append({"nobj": nobj, "fields": "given", "extra": 2, "only_best": only_best, "text": "short", "L": 4 if nobj == 1 else 3,
@@ -201,6 +208,9 @@ def run_unit(unit) -> UnitResult:
                         for k in range(unit["extra"]):
                             extra_cbs[f"X{k}"] = (lambda k: (lambda t, i, p: f"x{k}:{i.get_phenotype().i}"))(k)
                             names.append(f"X{k}")
+                    if unit["extra"] == "override":
+                        col = "Text" if unit["fields"] == "given" else "Phenotype"
+                        extra_cbs[col] = lambda t, i, p: f"ov:{i.get_phenotype().i}"
                     fields = None
                     if unit["fields"] == "given":
                         fields = {"Id": lambda t, i, p: i.get_phenotype().i, "Text": lambda t, i, p: i.get_phenotype()}
@@ -258,6 +268,10 @@ def run_unit(unit) -> UnitResult:
                     # histories) freed, so a new individual readily takes the address of the one that just died
                     progs = [Prog(i, TEXTS[unit["text"]](i)) for i in range(len(seq))]
                     dead_ids: set = set()
+                    if nobj == 1:
+                        other_problem = SingleObjectiveProblem(lambda p: 1000.0 + p.i, minimize=True)
+                    else:
+                        other_problem = MultiObjectiveProblem([True] * nobj, lambda p: [1000.0 + p.i + k for k in range(nobj)])
                     for e, (what, i) in enumerate(events):
                         f = seq[i]
                         if what == "new":
@@ -275,6 +289,9 @@ def run_unit(unit) -> UnitResult:
                                     r.count("individuals_created_at_the_address_of_a_dead_one")
                                 del spare
                         ind = inds_by_i[i]
+                        if unit.get("other_problem_first") and what == "new":
+                            # the individual already carries a fitness for another problem (with other values)
+                            SequentialEvaluator().evaluate(other_problem, [ind])
                         tracker.evaluate([ind])
                         r.executions += 1
                         # which registrations must be logged is decided by an independent reference, not by the
@@ -383,7 +400,10 @@ def check_image(content: bytes, unit, nobj, expected_rows, extra_names, expect_e
             return ("row-width", f"row has {len(row)} cells for {len(header)} columns")
         d = dict(zip(header, row))
         i = ind.genotype.i
-        if d[text_col] != ind.genotype.text:
+        if unit["extra"] == "override":
+            if d[text_col] != f"ov:{i}":
+                return ("extra-field", f"row of individual {i}: the overriding field {text_col} = {d[text_col][:40]!r}, its callback gives 'ov:{i}'")
+        elif d[text_col] != ind.genotype.text:
             return ("phenotype-column", f"row of individual {i}: {text_col} = {d[text_col][:40]!r}")
         for k, col in enumerate(fit_cols):
             want = float(table[i] + 10 * k) if nobj > 1 else float(table[i])
